@@ -151,16 +151,17 @@ for k, v in ADDENDA.items():
 # round-4 additions to what each check explores (appended to the texts above)
 ROUND4 = {
     "C02": " A third scenario sends the sequential programs over the real TCP / WebSocket / HTTP front ends: a write the reply acknowledges must be stored, a refused one must have changed nothing; version arguments below -1 are in the alphabet.",
-    "C03": " One case in seven uses an arbiter-strategy database with a passive arbiter (a write put aside as a conflict notifies nobody); a subscriber may vanish without clean-up (registrations stay, receiver gone) and the others must not notice.",
-    "C04": " One value in five ends in blanks, a tab or a carriage return, starts with a blank or has several words: replicas must hold the very bytes.",
-    "C05": " The value `<Empty>` is in the alphabet and a quarter of the cases run with --tcp-address different from --external-address (address aliases in the simulated net).",
-    "C06": " Histories on arbiter-strategy databases register arbiter sessions and make stale versioned writes (conflicts put aside before and after snapshots); a quarter of the biased histories release incremental snapshots to race with the following commands (the next snapshot that completes alone must be restored exactly); identifiers must stay unique and a database that returns without a completed snapshot must return with its own identifier and strategy.",
+    "C03": " One case in seven uses an arbiter-strategy database with a passive arbiter (a write put aside as a conflict notifies nobody); a subscriber may vanish without clean-up (registrations stay, receiver gone) and the others must not notice. In a third of the runs a quarter of all TCP writes arrive as two segments.",
+    "C04": " One value in five ends in blanks, a tab or a carriage return, starts with a blank or has several words: replicas must hold the very bytes. In a third of the programs a quarter of the writes on the links between the nodes arrive as two TCP segments (cut anywhere, the second part up to 2 ms later).",
+    "C05": " The value `<Empty>` is in the alphabet and a quarter of the cases run with --tcp-address different from --external-address (address aliases in the simulated net). In a third of the runs the inter-node writes arrive in two TCP segments.",
+    "C06": " Histories on arbiter-strategy databases register arbiter sessions and make stale versioned writes (conflicts put aside before and after snapshots); a quarter of the biased histories release incremental snapshots to race with the following commands (the next snapshot that completes alone must be restored exactly); identifiers must stay unique and a database that returns without a completed snapshot must return with its own identifier and strategy. Incremental snapshots may also be killed at their k-th disk call (database with an earlier completed snapshot), after which the history goes on.",
     "C07": " A third of the latency cases use a narrow band of uniformly slow messages; in a quarter of the cases one direction of one link is slower than the 100 ms claim grace (well below the timeout), during the triggers or from the first boot (the latter is a recorded finding).",
     "C08": " The administrator also tries `replicate-remove d $$token`, `rp 9 remove $$token` and `rp 9 replicate-remove d $$token`.",
     "C09": " Administrator steps snapshot (the background snapshot runs on every node) and remove-user; commands `election <not win/candidate> <name>\\n<replication command>` and `resolve` naming a database the session never selected (that database must not change on any node).",
-    "C10": " Lines may nest replication envelopes 2-20000 levels deep (tasks have std's 2 MiB thread stack; a dying worker process is attributed to its line), WebSocket binary frames, path-like database names, arbiter lines; in a quarter of the cases the background snapshot runs after every line, and in a third of those its first run meets a disk error (open for writing fails once): that thread's own panic is exempt, every client line after it is judged.",
-    "C13": " In a third of the cases the administrator arbiter also selects and registers for a second arbiter database.",
-    "C15": " Unit scenario: an operation nobody acknowledges is registered first and a task polls the pending-count report while the other calls run (it must never read 0); cluster scenario: the acknowledgements of one secondary are held on the wire while 1-5 writes are made (each stays pending, listing that node as unacknowledged) and the count returns to 0 when they are delivered.",
+    "C10": " Lines may nest replication envelopes 2-20000 levels deep (tasks have std's 2 MiB thread stack; a dying worker process is attributed to its line), WebSocket binary frames, path-like database names, arbiter lines; in a quarter of the cases the background snapshot runs after every line, and in a third of those its first run meets a disk error (open for writing fails once): that thread's own panic is exempt, every client line after it is judged. In a third of the runs a quarter of all TCP writes (the attacker's lines too) arrive as two segments.",
+    "C13": " In a third of the cases the administrator arbiter also selects and registers for a second arbiter database. The two key names are `ka` and `kab` (one begins with the other).",
+    "C15": " Unit scenario: an operation nobody acknowledges is registered first and a task polls the pending-count report while the other calls run (it must never read 0); cluster scenario: the acknowledgements of one secondary are held on the wire while 1-5 writes are made (each stays pending, listing that node as unacknowledged) and the count returns to 0 when they are delivered. Cluster scenario: in a third of the runs the inter-node writes arrive in two TCP segments.",
+    "C14": " In a third of the runs the inter-node writes arrive in two TCP segments.",
     "C16": " Two administrators may create two databases at the same instant (identifiers must differ).",
     "C17": " A quarter of the burst cases snapshot every database and restart the node while the sessions are open: the first session of the new process reads 1, a second one 2, then 1 again.",
     "C18": " (C06's additions apply.) put-fails-always also for the metadata object alone, followed by a restart: the database comes back as itself or not at all.",
